@@ -97,7 +97,7 @@ TABLE['C11'] = {
 TABLE['C17'] = {
     'modules': ['tree_spec'], 'replay': 'tree_replay', 'level': 'other',
     'bounded_hook': 'pyvc.bounded_native',
-    'bound': 'all histories of up to 3 operations (4 in the thorough tier) over: assignments of counting handles (loading None, 0, [], a falsy object), empty and pre-populated maps under keys of depth 1-3 over {a, b}, pushing a handle layer, followed by a full comparison of get_static_map() with the map (item, attribute and get access at every node, absent names, setattr/delattr on every node)',
+    'bound': 'all histories of up to 4 operations (5 in the thorough tier) over: assignments of two counting handles and a pre-populated map under the keys a, a/b, b-1 (not an identifier), __p (private name), pushing a handle layer on the root or on a; each followed by a full comparison of get_static_map() with the map (item, attribute and get access at every node, absent names, setattr/delattr on every node)',
     'trusted_base': T_STATE,
     'assumptions': ['names that collide with members of StaticResourceMap are excluded (as in the statement)'],
     'explanation': 'Immutability (__setattr__/__delattr__ raise unconditionally and change nothing) is discharged deductively. The mirror clause (get_static_map builds a class with __slots__ per map, recursively) is outside the verifier subset and is checked by the BOUNDED native stand-in only: not proved.',
